@@ -43,6 +43,7 @@ func (r *Rule) UnmarshalJSON(data []byte) error {
 	}
 	r.Name = jrule.Name
 	r.Pattern = jrule.Pattern
+	r.Action = nil // The rule may be decoded into a value that was used before.
 	jaction := struct {
 		Kind string `json:"kind"`
 	}{}
